@@ -49,6 +49,7 @@ struct Block
     int id = -1;
     int op = -1;
     bool live = false;
+    bool in_region = false;
 };
 
 // Placement policy for the next allocations (set from the plan before each op).
@@ -60,6 +61,31 @@ struct Placement
 };
 
 class World; // owns all arenas: one ledger, ids per arena
+
+// Block addresses must be a function of the plan alone (a row-alignment or residue effect that depends on where the
+// kernel happened to place an mmap would not replay in a fresh process): all blocks of a run are carved, in order, from
+// one fixed region that is reserved once per process and handed back zeroed at the end of every run.
+struct Region
+{
+    unsigned char* base = nullptr;
+    size_t size = (size_t)1 << 36; // 64 GiB of address space, PROT_NONE, no reservation
+    size_t cur = 0;
+    void const* owner = nullptr;
+    bool tried = false;
+    static Region& get() { static Region r; return r; }
+    bool init()
+    {
+        if (base) return true;
+        if (tried) return false;
+        tried = true;
+        void* want = (void*)0x200000000000ull; // inside ASan's HighMem, away from its allocator (0x6000'0000'0000)
+        void* p = mmap(want, size, PROT_NONE, MAP_PRIVATE | MAP_ANONYMOUS | MAP_NORESERVE | MAP_FIXED_NOREPLACE, -1, 0);
+        if (p == MAP_FAILED) return false;
+        if (p != want) { munmap(p, size); return false; }
+        base = (unsigned char*)p;
+        return true;
+    }
+};
 
 struct FaultCounter
 {
@@ -125,8 +151,17 @@ public:
         size_t body = ((n + slack + 32 + page - 1) / page) * page;
         if (body == 0) body = page;
         b.map_len = body + 2 * page;
-        b.map = (unsigned char*)mmap(nullptr, b.map_len, PROT_NONE, MAP_PRIVATE | MAP_ANONYMOUS, -1, 0);
-        if (b.map == (unsigned char*)MAP_FAILED) throw std::bad_alloc();
+        Region& R = Region::get();
+        if (R.init() && (R.owner == nullptr || R.owner == this) && R.cur + b.map_len <= R.size)
+        {
+            R.owner = this;
+            b.map = R.base + R.cur; R.cur += b.map_len; b.in_region = true;
+        }
+        else
+        {
+            b.map = (unsigned char*)mmap(nullptr, b.map_len, PROT_NONE, MAP_PRIVATE | MAP_ANONYMOUS, -1, 0);
+            if (b.map == (unsigned char*)MAP_FAILED) throw std::bad_alloc();
+        }
         unsigned char* lo = b.map + page;
         unsigned char* hi = lo + body;
         mprotect(lo, body, PROT_READ | PROT_WRITE);
@@ -206,10 +241,16 @@ public:
             if (b.map)
             {
                 if (b.live) { SIM_UNPOISON(b.map + page, b.map_len - 2 * page); }
-                munmap(b.map, b.map_len);
+                if (!b.in_region) munmap(b.map, b.map_len);
                 b.map = nullptr; b.live = false;
             }
         blocks.clear();
+        Region& R = Region::get();
+        if (R.owner == this)
+        {
+            if (R.cur) { mprotect(R.base, R.cur, PROT_NONE); madvise(R.base, R.cur, MADV_DONTNEED); }
+            R.cur = 0; R.owner = nullptr;
+        }
     }
 
     static std::string tag(Block const& b)
